@@ -61,6 +61,21 @@ def scenario_shard(
         vs = list(run.violations)
         if post is not None and not run.crash:
             vs.extend(post(run))
+        if sc.get("second_run_seed") is not None and not run.crash and run.tree is not None:
+            # the same sprout-mechanism objects handed to a second tree (a different seeded run), as users do with a
+            # module-level get_NBC_sprout(): state kept on generator / filter / mechanism objects must not leak over
+            sc2 = dict(sc)
+            sc2["options"] = dict(sc["options"], random_seed=int(sc["second_run_seed"]))
+            sc2["second_run_seed"] = None
+            run2 = Run(sc2, checkers=make_checkers(sc2), reuse_from=run, **run_kwargs)
+            if stepwise:
+                run2.run_stepwise()
+            else:
+                run2.run_all()
+            tally.label("second_run_with_reused_mechanism")
+            if not run2.crash:
+                for v in run2.violations:
+                    vs.append(Violation(v.prop, v.signature + "/second-tree-same-mechanism", "second tree run with the same sprout-mechanism objects: " + v.detail, v.data))
         if run.crash:
             tally.aborted[run.crash[0]] = tally.aborted.get(run.crash[0], 0) + 1
             if crash_is_violation and not run.timed_out:
@@ -91,6 +106,18 @@ def replay_scenario(sc: dict, make_checkers, run_kwargs=None, crash_is_violation
     vs = list(run.violations)
     if post is not None and not run.crash:
         vs.extend(post(run))
+    if sc.get("second_run_seed") is not None and not run.crash and run.tree is not None:
+        sc2 = dict(sc)
+        sc2["options"] = dict(sc["options"], random_seed=int(sc["second_run_seed"]))
+        sc2["second_run_seed"] = None
+        run2 = Run(sc2, checkers=make_checkers(sc2), reuse_from=run, **(run_kwargs or {}))
+        if stepwise:
+            run2.run_stepwise()
+        else:
+            run2.run_all()
+        if not run2.crash:
+            for v in run2.violations:
+                vs.append(Violation(v.prop, v.signature + "/second-tree-same-mechanism", "second tree run with the same sprout-mechanism objects: " + v.detail, v.data))
     if run.crash:
         if crash_is_violation and not run.timed_out:
             vs.append(Violation(prop, f"{prop}/run-raised/{run.crash[0]}", "pyhms raised: " + run.crash[1][-700:]))
